@@ -78,6 +78,7 @@ type VirtualISO struct {
 	padAreaSize  sizeBytes
 	fsBuf        iso9660encoder // binary-encoded filesystem structures
 	files        filesList      // ordered by location list of files to read from fs
+	opened       *fileItem      // element of files which is open now (if any)
 	offset       sizeBytes      // used during Read and Seek
 }
 
@@ -710,6 +711,16 @@ func (viso *VirtualISO) read(buf []byte, off int64) (int64, error) {
 				return read, fmt.Errorf("offset (%d) greater than padded file %s location(%d)+size(%d)",
 					offset, fileItem.path, fileItem.rLBA.bytes(), fileItem.size.sectors().bytes())
 			}
+
+			// Only the file used last is kept open: sequential read of an image touches every file of the tree,
+			// and keeping all of them open until Close exhausts descriptors with big trees.
+			if viso.opened != nil && viso.opened != fileItem {
+				if err := viso.opened.closeOpened(); err != nil {
+					return read, fmt.Errorf("failed to close %s: %w", viso.opened.path, err)
+				}
+			}
+
+			viso.opened = fileItem
 
 			f, err := fileItem.openOnDemand(viso.fs)
 			if err != nil {
